@@ -559,13 +559,28 @@ def write_if_changed(path, text):
 
 TARGETS = {"layout": gen_layout}
 
+def load_plugins():
+    """py2v/gen_<name>.py may define TARGETS = {name: fn(repo, outdir)}; a plugin raises py2v.Fail (or exits non-zero) when it
+    meets source it does not understand (fail-closed), exactly like the built-in targets."""
+    import importlib.util, glob
+    here = os.path.dirname(os.path.abspath(__file__))
+    sys.modules.setdefault("py2v", sys.modules[__name__])
+    for p in sorted(glob.glob(os.path.join(here, "gen_*.py"))):
+        spec = importlib.util.spec_from_file_location(os.path.basename(p)[:-3], p)
+        m = importlib.util.module_from_spec(spec); spec.loader.exec_module(m)
+        TARGETS.update(getattr(m, "TARGETS", {}))
+
 def main():
     import argparse
     ap = argparse.ArgumentParser()
     ap.add_argument("--repo", default="/repo")
     ap.add_argument("--out", default=os.path.join(os.path.dirname(os.path.abspath(__file__)), "..", "coq", "Gen"))
-    ap.add_argument("targets", nargs="+")
+    ap.add_argument("targets", nargs="*")
+    ap.add_argument("--list", action="store_true")
     a = ap.parse_args()
+    load_plugins()
+    if a.list:
+        print(" ".join(sorted(TARGETS))); return
     try:
         for t in a.targets: TARGETS[t](a.repo, a.out)
     except Fail as f:
